@@ -47,7 +47,7 @@ func (c04) Runs(tier string) int {
 }
 func (c04) RequiredProbes(string) []string { return []string{"reached_controller"} }
 
-var c04Targets = []string{"sibling", "outside", "versions", "sidecar", "iam", "other-upload", "own-parent", "bucket-itself"}
+var c04Targets = []string{"sibling", "outside", "versions", "sidecar", "iam", "other-upload", "own-parent", "bucket-itself", "own-alias"}
 var c04Encs = []string{"raw", "pct", "double", "mixed", "backslash", "nul", "unicode", "overlong", "lead-slash", "dot-slash", "dbl-slash", "abs"}
 
 func (c04) Gen(seed uint64, run int, tier string) *core.Case {
@@ -164,6 +164,10 @@ func c04Hostile(p *c04Prog, fx *routes.Fixture, baseDepth int) (decoded string, 
 		if p.Target != "own-parent" && p.Enc != "abs" {
 			val = "a/" + "../" + val
 		}
+	}
+	if p.Target == "own-alias" {
+		// no dots at all: empty segments, which a file system resolves to ANOTHER key of the same bucket
+		val = []string{"/obj1", "//obj1", "dir//obj2", "/dir/obj2", "dir///obj2", "//dir//obj2"}[p.Depth%6]
 	}
 	if p.Target == "bucket-itself" {
 		// a value that names no object at all but resolves to the directory of the named bucket
@@ -395,6 +399,16 @@ func (c04) Exec(c *core.Case) (out *core.Outcome) {
 		mutate            bool
 	}
 	var escapes []touch
+	// object-level: a key with empty segments is a key of its own; the file another key lives in is not its
+	// storage. aliasTarget = where the file system resolves the name to, when that is not the name itself
+	aliasTarget := ""
+	var aliasTouches []touch
+	if (p.Param == "key" || p.Param == "Key") && p.Target == "own-alias" && named != "" {
+		lit := filepath.Join(e.Dirs.Root, named) + "/" + dec
+		if cl := filepath.Clean(lit); cl != lit && cl != strings.TrimSuffix(lit, "/") {
+			aliasTarget = cl
+		}
+	}
 	classify := func(abs string) string {
 		switch {
 		case strings.HasPrefix(abs, e.Dirs.Root+"/"):
@@ -445,6 +459,9 @@ func (c04) Exec(c *core.Case) (out *core.Outcome) {
 			if !within(abs) {
 				escapes = append(escapes, touch{si.Name, abs, classify(abs), si.Mutate})
 			}
+			if aliasTarget != "" && abs == aliasTarget && (si.Mutate || strings.Contains(si.Name, "Open") || strings.Contains(si.Name, "ReadFile")) {
+				aliasTouches = append(aliasTouches, touch{si.Name, abs, "another-key-of-the-bucket", si.Mutate})
+			}
 		}
 	}
 	before := e.Snapshot()
@@ -468,6 +485,20 @@ func (c04) Exec(c *core.Case) (out *core.Outcome) {
 		o.Probe("rejected_by_http_parser")
 	}
 	desc := fmt.Sprintf("%s %s [route %s, parameter %s = %q (%s, target %s, depth %d, %s)] by %s -> %d %s", sg.Method, abbreviate(sg.Target, 160), p.Route, p.Param, abbreviate(dec, 80), p.Enc, p.Target, p.Depth, p.Place, cl.Access, res.Resp.Status, res.Resp.ErrCode())
+	if len(aliasTouches) > 0 && res.Resp.OK() {
+		t := aliasTouches[0]
+		for _, x := range aliasTouches {
+			if x.mutate {
+				t = x
+			}
+		}
+		eff := "read"
+		if t.mutate {
+			eff = "mutating-call"
+		}
+		o.Violate("escape", "C04/"+p.Param+"/"+eff+"/another-key-of-the-bucket",
+			"%s : the request names the key %q; while serving it the gateway called %s on %s, the file of the key %q", desc, dec, t.call, strings.Replace(t.path, base, "$B", 1), strings.TrimPrefix(t.path, filepath.Join(e.Dirs.Root, named)+"/"))
+	}
 	if len(escapes) > 0 {
 		seen := map[string]bool{}
 		for _, t := range escapes {
@@ -496,6 +527,11 @@ func (c04) Exec(c *core.Case) (out *core.Outcome) {
 			if named != "" && (pth == pre || strings.HasPrefix(pth, pre)) {
 				ok = true
 			}
+		}
+		if sv := "sidecar" + e.Dirs.Vers + "/" + named; named != "" && (strings.HasPrefix(pth, sv+"/") || (strings.HasPrefix(pth, "sidecar/") && strings.HasPrefix(sv+"/", pth+"/"))) {
+			// the sidecar metadata of the named bucket's versions (the sidecar tree mirrors the absolute path
+			// of the versioning directory): storage of the named bucket, as in the monitor's list above
+			ok = true
 		}
 		if isAdmin && strings.HasPrefix(pth, "iam/") {
 			ok = true
